@@ -72,7 +72,27 @@ Parsed parse(const vh::Args &a, size_t pos) {
   return r;
 }
 
-std::string dump(const Parsed &g) { return vh::dump_geometry(g.pc.get(), g.mesh); }
+// canonical dump; an attribute without any value may have no buffer at all (PointCloud::CreateAttribute with
+// zero values never calls Reset): that is an empty value list, not a short buffer
+std::string dump_geom(const PointCloud *pc, const Mesh *mesh) {
+  std::string s = vh::dump_geometry(pc, mesh);
+  bool any = false;
+  for (int i = 0; i < pc->num_attributes(); ++i) any = any || pc->attribute(i)->size() == 0;
+  if (!any) return s;
+  std::vector<std::string> t;
+  std::istringstream ss(s);
+  std::string w;
+  while (ss >> w) t.push_back(w);
+  for (int i = 0; i < pc->num_attributes(); ++i) {
+    const size_t k = 5 + 9 * static_cast<size_t>(i) + 7;
+    if (pc->attribute(i)->size() == 0 && k < t.size() && t[k] == "SHORTBUFFER") t[k] = "-";
+  }
+  std::string r;
+  for (size_t i = 0; i < t.size(); ++i) r += (i ? " " : "") + t[i];
+  return r;
+}
+
+std::string dump(const Parsed &g) { return dump_geom(g.pc.get(), g.mesh); }
 
 template <class F>
 std::string twice(Parsed &g, F op) {
@@ -98,7 +118,7 @@ bool parse_att(const vh::Args &a, size_t pos, AttIn *o) {
   o->dt = atoi(a[pos + 1].c_str());
   o->nc = atoi(a[pos + 2].c_str());
   o->nz = a[pos + 3] == "1";
-  o->kinds = a[pos + 4];
+  o->kinds = a[pos + 4] == "-" ? std::string() : a[pos + 4];
   o->data = vh::unhex(a[pos + 5]);
   if (o->att_type < 0 || o->att_type >= GeometryAttribute::NAMED_ATTRIBUTES_COUNT) return false;
   if (o->nc < 1 || o->nc > 127) return false;
@@ -212,7 +232,7 @@ VH_OP(buildmesh) {
   }
   std::unique_ptr<Mesh> m = b.Finalize();
   if (!m) return "null";
-  return vh::dump_geometry(m.get(), m.get());
+  return dump_geom(m.get(), m.get());
 }
 
 VH_OP(buildpc) {
@@ -249,5 +269,5 @@ VH_OP(buildpc) {
   }
   std::unique_ptr<PointCloud> pc = b.Finalize(dedup);
   if (!pc) return "null";
-  return vh::dump_geometry(pc.get(), nullptr);
+  return dump_geom(pc.get(), nullptr);
 }
